@@ -22,6 +22,7 @@
 -/
 import Upnp.Lemmas.C07Fault
 import Upnp.Model.C06Anc
+import Upnp.Props.C08
 namespace Upnp.C07
 open Upnp.C06 Upnp.Gen
 
@@ -199,6 +200,47 @@ theorem c07_model_ok_gen (O : Oracles) (X : XmlOracle) (a : ActionDecl) (status 
     ok O X a status body (observe genAnc (decode O X a status body)) = true :=
   c07_model_ok O X genAnc exc_hierarchy_pin a status body
 
+/-! ### conversion (C08's model, all 26 types) -/
+
+/-- **A conversion failure is a `ValueError`, nothing else** — for every row (any of the 26 types,
+    the date / time types through `parse_date_time` included: C08's `in_total` / `parse_total`) and
+    every text: the out-argument conversion yields a value or raises `ValueError`. -/
+theorem conversion_total (O : Oracles) (row : TypeRow) (text : Str) :
+    (∃ v, coercePython O row text = .ok v) ∨ coercePython O row text = .error .valueError := by
+  have h := Upnp.C08.in_total O row text
+  unfold Upnp.C08.inOk at h
+  cases hc : coercePython O row text with
+  | ok v => exact Or.inl ⟨v, rfl⟩
+  | error e =>
+    right
+    have hc' : Upnp.C08.coercePython O Gen.C08Types.table row text = .error e := hc
+    rw [hc'] at h
+    simp at h
+    rw [h]
+
+/-- hence the only exceptions that leave the out-argument loop are the strict-mode refusal of an
+    unknown argument and `ValueError`: the `raw` case of the model is unreachable -/
+theorem readOutArgs_errors (O : Oracles) (a : ActionDecl) :
+    ∀ (cs : List Xml) (acc : List (Str × PyVal)) (e : DExc), readOutArgs O a cs acc = .error e →
+      e = .unknownArg ∨ e = .valueError := by
+  intro cs
+  induction cs with
+  | nil => intro acc e h; simp [readOutArgs] at h
+  | cons c r ih =>
+    intro acc e h
+    unfold readOutArgs at h
+    cases ho : outArg? a c.tag with
+    | none =>
+      simp only [ho] at h
+      cases hs : a.strict with
+      | true => simp [hs] at h; exact Or.inl h.symm
+      | false => simp only [hs] at h; exact ih acc e (by simpa using h)
+    | some d =>
+      simp only [ho] at h
+      rcases conversion_total O d.var.row (c.text.getD []) with ⟨v, hv⟩ | hv
+      · rw [hv] at h; exact ih _ e h
+      · rw [hv] at h; simp at h; exact Or.inr h.symm
+
 /-! ### histories -/
 
 /-- Successive calls on one long-lived action object.  In the model a call's outcome is `decode`
@@ -230,13 +272,15 @@ theorem history_independent (O : Oracles) (X : XmlOracle) (anc : String → List
 
 section Example
 private def rowOf (n : String) : TypeRow :=
-  (C06Types.table.find? (·.name == n.toList)).getD ⟨[], .str, false, .str, .str⟩
+  (table.row? n.toList).getD ⟨[], .str, .str, .str, false⟩
 
 private def exA : ActionDecl :=
   { name := "GetVolume".toList, serviceType := "urn:x:service:RC:1".toList, deviceUrl := [], controlUrl := [],
     args := [⟨"Channel".toList, true, { row := rowOf "string" }⟩,
              ⟨"CurrentVolume".toList, false, { row := rowOf "ui2" }⟩,
-             ⟨"Mute".toList, false, { row := rowOf "boolean" }⟩] }
+             ⟨"Mute".toList, false, { row := rowOf "boolean" }⟩,
+             ⟨"At".toList, false, { row := rowOf "time.tz" }⟩,
+             ⟨"Day".toList, false, { row := rowOf "date" }⟩] }
 
 private def envelope (inner : List Xml) : Xml :=
   .node (Xml.clark soapEnvNs "Envelope".toList) none [.node bodyTag none inner]
@@ -244,7 +288,8 @@ private def envelope (inner : List Xml) : Xml :=
 /-- out-arguments in the "wrong" order, alternate spellings, an unknown argument last -/
 private def respDoc : Xml :=
   envelope [.node (responseTag exA) none
-    [.node "Mute".toList (some "TRUE".toList) [], .node "CurrentVolume".toList (some " 42 ".toList) []]]
+    [.node "Mute".toList (some "TRUE".toList) [], .node "CurrentVolume".toList (some " 42 ".toList) [],
+     .node "Day".toList (some "0987-02-28".toList) [], .node "At".toList (some "23:59:59 -0530".toList) []]]
 private def respDocExtra : Xml :=
   envelope [.node (responseTag exA) none
     [.node "CurrentVolume".toList (some "7".toList) [], .node "Bogus".toList none []]]
@@ -257,13 +302,14 @@ private def faultDoc : Xml :=
 private def exX : XmlOracle := fun t =>
   if t = ['R'] then some (some respDoc) else if t = ['E'] then some (some respDocExtra)
   else if t = ['F'] then some (some faultDoc) else some none
-private def exO : Oracles := { parseFloat := fun _ => none, parseDt := fun _ => none }
+private def exO : Oracles := { repr := fun _ => [], parse := fun _ => none, le := Fl.le, eq := Fl.eq }
 
 /-- every branch of the property is inhabited: success with padding and reordering, fault at 200
     and at 500 (leading padding there), garbage at 200 and 404, unknown argument strict / non-strict -/
 example :
     decode exO exX exA 200 (some "R\r\n\x00 ".toList)
-        = .ret [("Mute".toList, .bool true), ("CurrentVolume".toList, .int 42)]
+        = .ret [("Mute".toList, .bool true), ("CurrentVolume".toList, .int 42),
+                ("Day".toList, .date ⟨987, 2, 28⟩), ("At".toList, .time ⟨23, 59, 59⟩ (some (-330)))]
     ∧ decode exO exX exA 200 (some ['F']) = .exc (.actionError (some 402) (some "Invalid Args".toList))
     ∧ decode exO exX exA 500 (some " F\n".toList)
         = .exc (.actionResponseError (some 402) (some "Invalid Args".toList) 500)
@@ -272,7 +318,7 @@ example :
     ∧ decode exO exX exA 500 (some ['R']) = .exc (.responseError 500)
     ∧ decode exO exX exA 200 (some ['E']) = .exc .unknownArg
     ∧ decode exO exX { exA with strict := false } 200 (some ['E']) = .ret [("CurrentVolume".toList, .int 7)] := by
-  refine ⟨?_, ?_, ?_, ?_, ?_, ?_, ?_, ?_⟩ <;> rfl
+  refine ⟨?_, ?_, ?_, ?_, ?_, ?_, ?_, ?_⟩ <;> decide +kernel
 end Example
 
 end Upnp.C07
